@@ -42,10 +42,11 @@ Proof.
 Qed.
 Print Assumptions C04_documented_status.
 (* the full statement (every documented code) is false of today's table: the two known findings *)
+Definition documents (code : bytes) (st : N) : bool := existsb (fun p => beq (fst p) code && (snd p =? st)) gen_error_spec.
 Example C04_documented_status_refuted :
-  In (b "RequestIsNotMultiPartContent", 412) gen_error_spec /\ table_status gen_error_table (b "RequestIsNotMultiPartContent") = Some 400
-  /\ In (b "MissingAttachment", 400) gen_error_spec /\ table_status gen_error_table (b "MissingAttachment") = None.
-Proof. vm_compute. repeat split; auto 300. Qed.
+  documents (b "RequestIsNotMultiPartContent") 412 = true /\ table_status gen_error_table (b "RequestIsNotMultiPartContent") = Some 400
+  /\ documents (b "MissingAttachment") 400 = true /\ table_status gen_error_table (b "MissingAttachment") = None.
+Proof. vm_compute. repeat split. Qed.
 Print Assumptions C04_documented_status_refuted.
 
 (* obligations on the potential panic sites translated from today's source (unwrap / expect / panic! / unreachable! /
